@@ -359,6 +359,10 @@ def r5(F, R):
         R.missing("C06-R5", "impl AdaptStrategy::new (found %d)" % len(impls))
     for b in impls:
         zero = {i for i in range(1, b.arg_count + 1) if b.local_name(i) == "num_tune"}
+        if not zero:
+            # a renamed parameter: the only u64 argument of AdaptStrategy::new is the number of tuning draws
+            u = [i for i in range(1, b.arg_count + 1) if b.local_ty(i) == "u64"]
+            zero = set(u) if len(u) == 1 else set()
         site = "%s @%s" % (b.path, b.loc())
         if not zero:
             R.bad("C06-R5", b.path + ":param", site, "constructor has no num_tune parameter")
